@@ -36,13 +36,15 @@ else:
             lock.acquire()
 
     def release_locks():
-        for lock in logger_locks:
+        # The logger locks must be released last: as long as they are held no handler can be
+        # added, hence the sets of locks being iterated can't change in the meantime.
+        for lock in queue_locks:
             lock.release()
 
         for lock in handler_locks:
             lock.release()
 
-        for lock in queue_locks:
+        for lock in logger_locks:
             lock.release()
 
     os.register_at_fork(
